@@ -1,3 +1,6 @@
+import Hannibal.Props.C13QCurrent
 import Hannibal.Props.C13Current
 #print axioms Hannibal.C13_holds
 #print axioms Hannibal.C13_current
+#print axioms Hannibal.C13q_holds
+#print axioms Hannibal.C13q_current
